@@ -90,12 +90,20 @@ def work(tasks, idx):
     cs = _auth.creds()
     for t in tasks:
         if t[0] == "auth":
-            _, ci, field, lo, hi = t
+            _, ci, field, lo, hi = t[:5]
+            trailer = t[5] if len(t) > 5 else b""
             c = cs[ci]
             a, e, _ = faults.build_assertion(c, flags=core.UP | core.UV)
+            if trailer:
+                # a response that is not canonical but that a lenient verifier might accept: the signature followed by
+                # padding bytes. If it is accepted at all, its bits are signed material like any other
+                a = dict(a, signature=a["signature"] + trailer)
             base = cases.run_auth(a, e)
             if base["k"] != "accept":
-                res.nonblocking.append({"why": "base assertion rejected", "code": base})
+                if trailer:
+                    res.count("auth-base-with-signature-trailer:rejected")
+                else:
+                    res.nonblocking.append({"why": "base assertion rejected", "code": base})
                 continue
             for i, nb in flips(a[field]):
                 if not (lo <= i < hi):
@@ -142,6 +150,18 @@ def work(tasks, idx):
                 c2 = dict(c, attestation_object=rebuild_attobj(c["attestation_object"], **{field: nb}))
             code = cases.run_reg(c2, e)
             res.evaluations += 1
+            if field == "authData" and code["k"] != "accept" and i % 8 == 3:
+                # the same flipped response in JSON form, as a browser's toJSON() emits it: with the convenience copies
+                # response.authenticatorData / publicKeyAlgorithm next to the attestation object - the copy is the unflipped one
+                j = core.to_reg_json(c2)
+                j["response"]["authenticatorData"] = core.b64url(bytes(target))
+                j["response"]["publicKeyAlgorithm"] = choice[2]
+                j["authenticatorAttachment"] = "cross-platform"
+                code_j = cases.run_reg(c2, e, cred_obj=j)
+                res.evaluations += 1
+                res.count(f"{fmt}-flip:authData:json-form-with-copy")
+                if code_j["k"] == "accept":
+                    code = code_j
             res.nontrivial.add((fmt, field, i))
             if i % 32 == 0:
                 tie.check(cases.reg_case(c2, e), code, label=[fmt, "flip", field, i])
@@ -175,6 +195,9 @@ def run(ctx, res):
         for field, nbits in (("authenticator_data", 37 * 8), ("client_data_json", 150 * 8), ("signature", 512 * 8)):
             for lo in range(0, nbits, CHUNK):
                 tasks.append(("auth", ci, field, lo, lo + CHUNK))
+        for trailer in (b"\x00", b"\x00\x00\x00", b"\xff\xfe"):
+            for lo in range(0, 640, CHUNK):
+                tasks.append(("auth", ci, "signature", lo, lo + CHUNK, trailer))
     fmts = ["packed", "fido-u2f", "tpm"] if ctx.quick() else list(SIGNED_FIELDS)
     for fmt in fmts:
         choices = _reg.cred_choices(fmt)
